@@ -1,6 +1,8 @@
 import Pyunicorn.Lemmas.Nsi
 import Pyunicorn.Lemmas.NsiDist
 import Pyunicorn.Lemmas.NsiBetw
+import Pyunicorn.Lemmas.NsiBfs
+import Pyunicorn.Lemmas.NsiRw
 import Pyunicorn.Model.NsiMeasures
 /-!
 # C02 — Node-splitting invariance of all n.s.i. measures
@@ -224,6 +226,285 @@ example : nsiBetw pathGd (fun _ => true) (fun _ => true) 1 = 3 ∧
     nsiBetw (split pathGd 1 (1/4)) (fun _ => true) (fun _ => true) 1 = 3 ∧
     nsiBetw (split pathGd 1 (1/4)) (fun _ => true) (fun _ => true) 3 = 3 ∧
     nsiBetw (split pathGd 1 (1/4)) (fun _ => true) (fun _ => true) 0 = 0 := by
+  decide +kernel
+
+/-! ### round 4 (a): the model's breadth-first distances are shortest-path lengths, so the
+betweenness theorem needs no distance hypothesis -/
+
+/-- **pigeonhole bound**: two nodes that are connected at all are connected by a walk with fewer
+than `N` links (so searching the walk lengths `0 … N` finds the distance or proves there is none) -/
+theorem shortest_walk_lt_n (G : Gr) {a b k : Nat} (w : Walk G a b k) :
+    ∃ d, d < G.n ∧ d ≤ k ∧ Walk G a b d :=
+  walk_short w
+
+/-- **`bfsDist` is the shortest-path length** (`IsDist`), for every graph and all nodes -/
+theorem bfs_distances_are_shortest_paths (G : Gr) (a b : Nat) (ha : a < G.n) :
+    IsDist G a b (bfsDist G a b) :=
+  bfsDist_isDist G a b ha
+
+/-- the same for the graph `withBfs G` the driver evaluates the definition on -/
+theorem withBfs_distances_are_shortest_paths (G : Gr) (a b : Nat) (ha : a < G.n) (hb : b < G.n) :
+    IsDist (withBfs G) a b ((withBfs G).dist a b) :=
+  withBfs_isDist G a b ha hb
+
+/-- **breadth-first search on the split graph finds exactly the distances `split` installs**
+(pulled back along the collapse map, twins at distance 1) -/
+theorem bfs_of_split (G : Gr) (v : Nat) (p : Rat) (hv : v < G.n) (hloop : ∀ i, G.adj i i = false)
+    (a b : Nat) (ha : a < G.n + 1) (hb : b < G.n + 1) :
+    bfsDist (split G v p) a b = (split (withBfs G) v p).dist a b :=
+  bfsDist_split G v p hv hloop a b ha hb
+
+/-- **Node-splitting invariance of n.s.i. betweenness with the distances computed inside the
+model** — no hypothesis on `dist` left: for every loop-free graph with positive node weights,
+every node `v`, `0 < p < 1`, all source / target sets and every node `a` of the split graph, the
+definition evaluated with breadth-first distances of the *split graph* equals the definition
+evaluated with breadth-first distances of the original graph at `collapse a`. -/
+theorem nsi_betweenness_split_bfs (G : Gr) (v : Nat) (p : Rat) (hv : v < G.n) (hp0 : 0 < p)
+    (hp1 : p < 1) (hw : ∀ k, k < G.n → 0 < G.w k) (hloop : ∀ i, G.adj i i = false)
+    (S T : Nat → Bool) (a : Nat) (ha : a < G.n + 1) :
+    nsiBetw (withBfs (split G v p)) (fun k => S (collapse G.n v k)) (fun k => T (collapse G.n v k)) a
+      = nsiBetw (withBfs G) S T (collapse G.n v a) := by
+  have h1 := nsi_betweenness_split (withBfs G) v p hv hp0 hp1 hw hloop
+    (fun x y hx hy => withBfs_isDist G x y hx hy) S T a ha
+  have h2 : nsiBetw (withBfs (split G v p)) (fun k => S (collapse G.n v k))
+        (fun k => T (collapse G.n v k)) a
+      = nsiBetw (split (withBfs G) v p) (fun k => S (collapse G.n v k))
+        (fun k => T (collapse G.n v k)) a := by
+    apply nsiBetw_congr (G := withBfs (split G v p)) (H := split (withBfs G) v p) rfl rfl rfl
+    · intro x y hx hy
+      rw [withBfs_dist (split G v p) x y hx hy]
+      exact bfsDist_split G v p hv hloop x y hx hy
+    · exact ha
+  rw [h2]
+  exact h1
+
+/-- non-vacuity: the breadth-first distances of the path 0–1–2 -/
+example : bfsDist pathG 0 2 = some 2 ∧ bfsDist pathG 0 0 = some 0 ∧
+    bfsDist (split pathG 1 (1/4)) 1 3 = some 1 ∧
+    nsiBetw (withBfs (split pathGd 1 (1/4))) (fun _ => true) (fun _ => true) 3 = 3 := by
+  decide +kernel
+
+/-! ### round 4 (b): Newman-type random-walk betweenness, with the matrix inverse as an assumed
+operation
+
+`Model/NsiRw.lean` writes `nsi_newman_betweenness` as the code computes it (`sp_M`, `V`, the
+Cython kernel with its `t < s` loop, `add_local_ends`) with the matrix `T` that stands for
+`sp_M_inv` as a parameter.  The theorem holds for **every** `T` on the original graph with
+`x T M = x` for the rows `x = Q[s,·] − Q[t,·]` (`SolvesL`) and every `T'` on the split graph
+with `M' T' y = y` for the columns `y = e_a − e_b` (`SolvesR`) — which is what an inverse is
+used for; no particular grounded node is assumed (the split makes the new twin the grounded
+"last" node).  The driver reports for every case that the code's grounded inverse satisfies
+both conditions exactly. -/
+
+/-- **the algebraic core**: the pull-back of a potential is a potential of the pulled-back row,
+`(ξ ∘ c)ᵀ M' = (ξᵀ M) ∘ c` for `M = sp_M` -/
+theorem newman_matrix_intertwines (G : Gr) (v : Nat) (p : Rat) (hv : v < G.n) (hp0 : 0 < p)
+    (hp1 : p < 1) (hw : ∀ k, k < G.n → 0 < G.w k) (xi : Nat → Rat) (m : Nat) (hm : m < G.n + 1) :
+    sumR (G.n + 1) (fun a => xi (collapse G.n v a) * newmanM (split G v p) a m)
+      = sumR G.n (fun r => xi r * newmanM G r (collapse G.n v m)) :=
+  pull_M G v p hv hp0 hp1 hw xi m hm
+
+/-- the quantity `V_is − V_js − V_it + V_jt` inside the kernel's absolute value pulls back -/
+theorem newman_potential_split (G : Gr) (v : Nat) (p : Rat) (hv : v < G.n) (hp0 : 0 < p)
+    (hp1 : p < 1) (hw : ∀ k, k < G.n → 0 < G.w k) (T T' : Nat → Nat → Rat)
+    (hT : SolvesL G.n (nsiQ G) (newmanM G) T)
+    (hT' : SolvesR (G.n + 1) (newmanM (split G v p)) T')
+    (a b s t : Nat) (ha : a < G.n + 1) (hb : b < G.n + 1) (hs : s < G.n + 1) (ht : t < G.n + 1) :
+    Dq (newmanV (split G v p) T') a b s t
+      = Dq (newmanV G T) (collapse G.n v a) (collapse G.n v b) (collapse G.n v s)
+          (collapse G.n v t) :=
+  Dq_split G v p hv hp0 hp1 hw T T' hT hT' a b s t ha hb hs ht
+
+/-- the loop of the Cython kernel (`j` neighbour of `i`, `t < s`) is half the symmetric weighted
+sum over `j ∈ N⁺(i)`, `s, t ∉ N⁺(i)`, for every `V` -/
+theorem newman_kernel_loop_is_symmetric_sum (G : Gr) (hloop : ∀ i, G.adj i i = false)
+    (V : Nat → Nat → Rat) (i : Nat) : 2 * newmanKernel G V i = newmanFull G V i :=
+  newmanKernel_full G hloop V i
+
+/-- **Node-splitting invariance of `nsi_newman_betweenness`** (both values of
+`add_local_ends`): every node `a` of the split graph — untouched or either twin — has the value of
+`collapse a`. -/
+theorem nsi_newman_betweenness_split (G : Gr) (v : Nat) (p : Rat) (hv : v < G.n) (hp0 : 0 < p)
+    (hp1 : p < 1) (hw : ∀ k, k < G.n → 0 < G.w k) (hloop : ∀ i, G.adj i i = false)
+    (T T' : Nat → Nat → Rat) (hT : SolvesL G.n (nsiQ G) (newmanM G) T)
+    (hT' : SolvesR (G.n + 1) (newmanM (split G v p)) T') (ends : Bool)
+    (a : Nat) (ha : a < G.n + 1) :
+    nsiNewman (split G v p) T' ends a = nsiNewman G T ends (collapse G.n v a) :=
+  nsiNewman_split_lemma G v p hv hp0 hp1 hw hloop T T' hT hT' ends a ha
+
+/-- **… with the matrix inverse as an assumed operation.**  `IsGroundedInv n M T`: `T` has a
+zero last row and column and its leading `(n−1) × (n−1)` block is a two-sided inverse of the
+leading block of `M` (`M_red · M_red⁻¹ = 1 = M_red⁻¹ · M_red`) — what `sp_M_inv[:-1,:-1] =
+inv(sp_M[:-1,:-1])` stores, *if* `inv` inverts.  For an undirected loop-free network with positive
+weights this alone gives the invariance, although the grounded node of the split copy is the new
+twin: `M T = 1 − e_g 1ᵀ` (columns of `sp_M` sum to zero) and `T M = 1 − (w/w_g) e_gᵀ`
+(`sp_M w = 0`), so `SolvesR` holds and `SolvesL` holds for every row orthogonal to `w`, as the
+rows `Q[s,·] − Q[t,·]` are. -/
+theorem nsi_newman_betweenness_split_grounded (G : Gr) (v : Nat) (p : Rat) (hv : v < G.n)
+    (hp0 : 0 < p) (hp1 : p < 1) (hw : ∀ k, k < G.n → 0 < G.w k) (hloop : ∀ i, G.adj i i = false)
+    (hsym : ∀ i j, G.adj i j = G.adj j i) (T T' : Nat → Nat → Rat)
+    (hT : IsGroundedInv G.n (newmanM G) T)
+    (hT' : IsGroundedInv (G.n + 1) (newmanM (split G v p)) T') (ends : Bool)
+    (a : Nat) (ha : a < G.n + 1) :
+    nsiNewman (split G v p) T' ends a = nsiNewman G T ends (collapse G.n v a) :=
+  nsiNewman_split_grounded G v p hv hp0 hp1 hw hloop hsym T T' hT hT' ends a ha
+
+/-- the two facts about a grounded inverse the previous theorem rests on -/
+theorem grounded_inverse_solves (G : Gr) (hn : 0 < G.n) (hw : ∀ k, k < G.n → 0 < G.w k)
+    (hsym : ∀ i j, G.adj i j = G.adj j i) (T : Nat → Nat → Rat)
+    (h : IsGroundedInv G.n (newmanM G) T) :
+    SolvesL G.n (nsiQ G) (newmanM G) T ∧ SolvesR G.n (newmanM G) T :=
+  ⟨grounded_solvesL_newman G hn hw T h,
+   grounded_solvesR G.n hn _ T h (fun j hj =>
+     newmanM_colsum G (fun k hk => ne_of_gt (hw k hk)) (aplus_symm G hsym) j hj)⟩
+
+/-- the executable checks the driver reports decide the two hypotheses -/
+theorem newman_hypotheses_decidable (n : Nat) (Q M T : Nat → Nat → Rat) :
+    (solvesL n Q M T = true → SolvesL n Q M T) ∧ (solvesR n M T = true → SolvesR n M T) :=
+  ⟨solvesL_sound n Q M T, solvesR_sound n M T⟩
+
+/-- non-vacuity: on the path 0–1–2–3 (used for the Arenas-type measure below) and on the path
+0–1–2–3–4 with weights 1, 2, 3, 1, 2 the code's grounded inverse exists and satisfies both
+hypotheses, on the graph and on its split copy (where the grounded node is the new twin); the
+middle node has the value 4/3, which both twins keep after splitting it -/
+def path4 : Gr :=
+  { n := 4, adj := fun i j => (i, j) ∈ [(0, 1), (1, 0), (1, 2), (2, 1), (2, 3), (3, 2)],
+    w := fun k => [1, 2, 3, 1].getD k 0, la := fun _ _ _ => 0, grp := fun _ _ => false,
+    dist := fun _ _ => none }
+
+def path5 : Gr :=
+  { n := 5, adj := fun i j => (i, j) ∈ [(0, 1), (1, 0), (1, 2), (2, 1), (2, 3), (3, 2), (3, 4), (4, 3)],
+    w := fun k => [1, 2, 3, 1, 2].getD k 0, la := fun _ _ _ => 0, grp := fun _ _ => false,
+    dist := fun _ _ => none }
+
+example :
+    let T := (newmanT path5).getD (fun _ _ => 0)
+    let T' := (newmanT (split path5 2 (1/4))).getD (fun _ _ => 0)
+    solvesL 5 (nsiQ path5) (newmanM path5) T = true ∧
+    solvesR 6 (newmanM (split path5 2 (1/4))) T' = true ∧
+    nsiNewman path5 T false 2 = 4/3 ∧
+    nsiNewman (split path5 2 (1/4)) T' false 2 = 4/3 ∧
+    nsiNewman (split path5 2 (1/4)) T' false 5 = 4/3 ∧
+    nsiNewman (split path5 2 (1/4)) T' true 5 = nsiNewman path5 T true 2 := by
+  decide +kernel
+
+/-- non-vacuity: the reduced inverses of the path 0–1–2–3–4 (weights 1, 2, 3, 1, 2) and of its
+split copy, written out, are grounded inverses in the sense of the theorem -/
+example :
+    IsGroundedInv 5 (newmanM path5) (padInv 5 fun i j =>
+      ([[3/2, 1, 5/6, 1/2], [2, 2, 5/3, 1], [5/2, 5/2, 5/2, 3/2], [1/2, 1/2, 1/2, 1/2]].getD i []).getD j 0) ∧
+    IsGroundedInv 6 (newmanM (split path5 2 (1/4))) (padInv 6 fun i j =>
+      ([[5/6, 1/3, 2/9, 1/6, 1/6], [2/3, 2/3, 4/9, 1/3, 1/3], [1/2, 1/2, 2/3, 1/2, 1/2],
+        [1/6, 1/6, 2/9, 1/2, 1/2], [1/3, 1/3, 4/9, 1, 2]].getD i []).getD j 0) :=
+  ⟨isGroundedInv_of_check _ _ _ (by decide +kernel), isGroundedInv_of_check _ _ _ (by decide +kernel)⟩
+
+/-! ### round 4 (c): Arenas-type random-walk betweenness
+
+For target `i` the code solves `(1 − P_i) V = P_i`, `P_i = D_k⁻¹ A⁺ D_w` with the rows of `N⁺(i)`
+multiplied by `1 − σ(i, r)` (`σ = 1`: stopping_mode "neighbors"; `σ = nsi_twinness`:
+"twinness").  The solve is an assumed operation: `V i` is *any* solution, and the split systems
+are regular (have at most one). -/
+
+/-- the solution of the split system is the pulled-back solution, re-weighted in the column -/
+theorem arenas_solution_of_split (G : Gr) (v : Nat) (p : Rat) (hv : v < G.n)
+    (hw : ∀ k, k < G.n → 0 < G.w k) (sigma sigma' : Nat → Nat → Rat)
+    (hsig : ∀ a b, sigma' a b = sigma (collapse G.n v a) (collapse G.n v b))
+    (i : Nat) (V : Nat → Nat → Rat) (hV : ArenasSolves G sigma (collapse G.n v i) V) :
+    ArenasSolves (split G v p) sigma' i
+      (fun s j => V (collapse G.n v s) (collapse G.n v j)
+        * ((split G v p).w j / G.w (collapse G.n v j))) :=
+  arenas_pull_solves G v p hv hw sigma sigma' hsig i V hV
+
+/-- **Node-splitting invariance of `nsi_arenas_betweenness`**, both values of
+`exclude_neighbors`, every stopping rule that pulls back along the collapse map -/
+theorem nsi_arenas_betweenness_split (G : Gr) (v : Nat) (p : Rat) (hv : v < G.n) (hp0 : 0 < p)
+    (hp1 : p < 1) (hw : ∀ k, k < G.n → 0 < G.w k) (sigma sigma' : Nat → Nat → Rat)
+    (hsig : ∀ a b, sigma' a b = sigma (collapse G.n v a) (collapse G.n v b))
+    (V V' : Nat → Nat → Nat → Rat)
+    (hV : ∀ i, i < G.n → ArenasSolves G sigma i (V i))
+    (hV' : ∀ i, i < G.n + 1 → ArenasSolves (split G v p) sigma' i (V' i))
+    (hreg : ∀ i, i < G.n + 1 → ArenasRegular (split G v p) sigma' i)
+    (excl : Bool) (j : Nat) (hj : j < G.n + 1) :
+    arenasB (split G v p) V' excl j = arenasB G V excl (collapse G.n v j) :=
+  arenasB_split_lemma G v p hv hp0 hp1 hw sigma sigma' hsig V V' hV hV' hreg excl j hj
+
+/-- `stopping_mode="neighbors"` (`σ = 1`) -/
+theorem nsi_arenas_betweenness_neighbors_split (G : Gr) (v : Nat) (p : Rat) (hv : v < G.n)
+    (hp0 : 0 < p) (hp1 : p < 1) (hw : ∀ k, k < G.n → 0 < G.w k) (V V' : Nat → Nat → Nat → Rat)
+    (hV : ∀ i, i < G.n → ArenasSolves G (fun _ _ => 1) i (V i))
+    (hV' : ∀ i, i < G.n + 1 → ArenasSolves (split G v p) (fun _ _ => 1) i (V' i))
+    (hreg : ∀ i, i < G.n + 1 → ArenasRegular (split G v p) (fun _ _ => 1) i)
+    (excl : Bool) (j : Nat) (hj : j < G.n + 1) :
+    arenasB (split G v p) V' excl j = arenasB G V excl (collapse G.n v j) :=
+  nsi_arenas_betweenness_split G v p hv hp0 hp1 hw _ _ (fun _ _ => rfl) V V' hV hV' hreg excl j hj
+
+/-- `stopping_mode="twinness"`: `σ = nsi_twinness`, which pulls back by `eval_split` -/
+theorem nsi_arenas_betweenness_twinness_split (G : Gr) (v : Nat) (p : Rat) (hv : v < G.n)
+    (hp0 : 0 < p) (hp1 : p < 1) (hw : ∀ k, k < G.n → 0 < G.w k) (V V' : Nat → Nat → Nat → Rat)
+    (hV : ∀ i, i < G.n → ArenasSolves G (fun a b => eval G [a, b] M.nsiTwinness) i (V i))
+    (hV' : ∀ i, i < G.n + 1 →
+      ArenasSolves (split G v p) (fun a b => eval (split G v p) [a, b] M.nsiTwinness) i (V' i))
+    (hreg : ∀ i, i < G.n + 1 →
+      ArenasRegular (split G v p) (fun a b => eval (split G v p) [a, b] M.nsiTwinness) i)
+    (excl : Bool) (j : Nat) (hj : j < G.n + 1) :
+    arenasB (split G v p) V' excl j = arenasB G V excl (collapse G.n v j) :=
+  nsi_arenas_betweenness_split G v p hv hp0 hp1 hw _ _
+    (fun a b => by simpa using eval_split G v p hv M.nsiTwinness [a, b]) V V' hV hV' hreg excl j hj
+
+/-- non-vacuity: the exact solves exist on the path 0–1–2–3 and on its split copy, and the twin
+carries the value of the split node -/
+example :
+    let V := fun i => (arenasV path4 (fun _ _ => 1) i).getD (fun _ _ => 0)
+    let V' := fun i => (arenasV (split path4 1 (1/4)) (fun _ _ => 1) i).getD (fun _ _ => 0)
+    arenasSolves path4 (fun _ _ => 1) 2 (V 2) = true ∧
+    arenasB path4 V true 1 ≠ 0 ∧
+    arenasB (split path4 1 (1/4)) V' true 4 = arenasB path4 V true 1 := by
+  decide +kernel
+
+/-! ### round 4 (d): nsi_laplacian, nsi_spreading, the n.s.i. degree histograms -/
+
+/-- `nsi_laplacian`: entries `[i, j]` with `j` not the split node are unchanged … -/
+theorem nsi_laplacian_split_untouched (G : Gr) (v : Nat) (p : Rat) (hv : v < G.n) (i j : Nat)
+    (hi : i < G.n) (hj : j < G.n) (hjv : j ≠ v) :
+    nsiLap (split G v p) i j = nsiLap G i j :=
+  nsiLap_split_untouched G v p hv i j hi hj hjv
+
+/-- … and as an operator it commutes with the pull-back: `L' (f ∘ c) = (L f) ∘ c` (every row,
+twins included) -/
+theorem nsi_laplacian_commutes_with_pullback (G : Gr) (v : Nat) (p : Rat) (hv : v < G.n)
+    (f : Nat → Rat) (a : Nat) (ha : a < G.n + 1) :
+    sumR (G.n + 1) (fun j => nsiLap (split G v p) a j * f (collapse G.n v j))
+      = sumR G.n (fun j => nsiLap G (collapse G.n v a) j * f j) :=
+  nsiLap_pull G v p hv f a ha
+
+/-- `nsi_spreading`: every term `m_k(i) = Σ_r w_r ((A⁺ D_w)^k A⁺)[r, i]` of the exponential
+series, the default `alpha`, and hence every Taylor polynomial with any coefficients, is
+invariant (all nodes, twins included).  `nsi_spreading = ½ Σ_k (α ln 2)^k / k! · m_k` is their
+limit; the limit itself is outside ℚ and is tied numerically (harness). -/
+theorem nsi_spreading_terms_split (G : Gr) (v : Nat) (p : Rat) (hv : v < G.n) (k i : Nat) :
+    spreadMoment (split G v p) k i = spreadMoment G k (collapse G.n v i) :=
+  spreadMoment_split G v p hv k i
+
+theorem nsi_spreading_alpha_split (G : Gr) (v : Nat) (p : Rat) (hv : v < G.n) :
+    spreadAlpha (split G v p) = spreadAlpha G :=
+  spreadAlpha_split G v p hv
+
+theorem nsi_spreading_taylor_split (G : Gr) (v : Nat) (p : Rat) (hv : v < G.n) (q : List Rat)
+    (i : Nat) :
+    spreadPoly (split G v p) (spreadAlpha (split G v p)) q i
+      = spreadPoly G (spreadAlpha G) q (collapse G.n v i) := by
+  rw [spreadAlpha_split G v p hv]
+  exact spreadPoly_split G v p hv _ q i
+
+/-- `nsi_degree_histogram` / `nsi_degree_cumulative_histogram`: the number of bins
+`int(max k* / min k*) + 1` and the lower bin bounds are invariant (the frequencies count nodes and
+are not n.s.i. quantities) -/
+theorem nsi_degree_histogram_bins_split (G : Gr) (v : Nat) (p : Rat) (hv : v < G.n) :
+    histNBins (split G v p) = histNBins G ∧ histLowerBounds (split G v p) = histLowerBounds G :=
+  ⟨histNBins_split G v p hv, histLowerBounds_split G v p hv⟩
+
+example : spreadMoment pathGd 2 0 = spreadMoment (split pathGd 1 (1/4)) 2 0 ∧ spreadMoment pathGd 2 0 = 75 ∧
+    histNBins pathGd = 3 ∧ histLowerBounds (split pathGd 1 (1/4)) = [3, 4, 5] := by
   decide +kernel
 
 /-! ### the measures of the library are expressions: invariance of each, by name -/
